@@ -9,16 +9,23 @@
 (* Every decision must be an outcome AccessDecision!Acceptable admits;     *)
 (* a document is accepted only with a signature of the configured CA over  *)
 (* exactly its content.                                                    *)
+(* Forge / FVerify lines (strengthening round): a container assembled from *)
+(* genuine material by cooperating edits (abstract description = the       *)
+(* AccessDecision!fblob TLC enumerated or the seeded generator drew, plus  *)
+(* the concrete bytes chosen for it and optional byte noise); acceptance   *)
+(* is judged by AccessDecision!Admissible on the abstract container.       *)
 (***************************************************************************)
 EXTENDS AccessDecision, Json, IOUtils
 
 Rec == ndJsonDeserialize(IOEnv.TRACE)
 
-VARIABLES l, run, doc, subj, st, lastv, viol
-tvars == <<l, run, doc, subj, st, lastv, viol>>
+VARIABLES l, run, doc, subj, st, lastv, viol,
+          forge     \* the container under test since the last Forge line ([on |-> FALSE] otherwise)
+tvars == <<l, run, doc, subj, st, lastv, viol, forge>>
 
 NoDoc == [grants |-> <<>>, gov |-> <<>>]
-TraceInit == l = 1 /\ run = 0 /\ doc = NoDoc /\ subj = "" /\ st = "none" /\ lastv = "none" /\ viol = {}
+NoForge == [on |-> FALSE]
+TraceInit == l = 1 /\ run = 0 /\ doc = NoDoc /\ subj = "" /\ st = "none" /\ lastv = "none" /\ viol = {} /\ forge = NoForge
 
 Query(e) == [op |-> e.op, dom |-> e.dom, topic |-> e.topic, parts |-> e.parts]
 
@@ -35,9 +42,20 @@ VerifyViol(e) ==
      THEN {"C18_accepted_without_signature_of_configured_ca_over_its_content"} ELSE {})
   \cup (IF e.pristine /\ e.signer = e.ca /\ e.out # "accepted" THEN {"C18_validly_signed_document_refused"} ELSE {})
 
+\* the container of the last Forge line is a genuinely signed document of the configured CA, byte for byte
+ForgeGenuine == forge.on /\ forge.clean /\ FUntouched(forge.blob) /\ forge.blob.by = forge.ca
+\* (byte noise cannot make an inadmissible container admissible: digests / signatures do not match by chance,
+\*  and the driver never adds noise to a container that carries one of the one-bit edits md=junk / rest=alt / sig=junk)
+ForgeAdmissible == forge.on /\ Admissible(forge.blob, forge.ca)
+
+FVerifyViol(e) ==
+  (IF e.out = "accepted" /\ ~(e.same /\ ForgeAdmissible)
+     THEN {"C18_accepted_without_signature_of_configured_ca_over_its_content"} ELSE {})
+  \cup (IF ForgeGenuine /\ e.out # "accepted" THEN {"C18_validly_signed_document_refused"} ELSE {})
+
 ValidateViol(e) ==
   (IF e.ok /\ lastv # "accepted" THEN {"C18_validate_accepts_document_without_valid_signature"} ELSE {})
-  \cup (IF ~e.ok /\ e.alt.k = "pristine" THEN {"C18_validly_signed_document_refused"} ELSE {})
+  \cup (IF ~e.ok /\ (e.alt.k = "pristine" \/ ForgeGenuine) THEN {"C18_validly_signed_document_refused"} ELSE {})
   \cup GrantViol(e)
 
 Step ==
@@ -46,21 +64,31 @@ Step ==
   /\ LET e == Rec[l] IN
      CASE e.ev = "Reset" ->
             /\ run' = e.run /\ doc' = e.doc /\ subj' = e.subj /\ st' = "none" /\ lastv' = "none" /\ viol' = {}
+            /\ forge' = NoForge
        [] e.ev = "Install" ->
             /\ st' = IF e.ok THEN "ok" ELSE "failed"
             /\ viol' = viol \cup GrantViol(e)
-            /\ UNCHANGED <<run, doc, subj, lastv>>
+            /\ UNCHANGED <<run, doc, subj, lastv, forge>>
        [] e.ev = "Check" ->
             /\ viol' = viol \cup CheckViol(e)
-            /\ UNCHANGED <<run, doc, subj, st, lastv>>
+            /\ UNCHANGED <<run, doc, subj, st, lastv, forge>>
        [] e.ev = "Verify" ->
             /\ lastv' = IF e.out = "accepted" /\ e.same /\ e.signer = e.ca THEN "accepted" ELSE "refused"
             /\ viol' = viol \cup VerifyViol(e)
+            /\ forge' = NoForge
             /\ UNCHANGED <<run, doc, subj, st>>
+       [] e.ev = "Forge" ->   \* inputs: abstract container, configured CA, the document its signature VALUE was made for
+            /\ forge' = [on |-> TRUE, blob |-> e.blob, ca |-> e.ca, clean |-> (Len(e.noise) = 0)]
+            /\ doc' = e.doc /\ lastv' = "none"
+            /\ UNCHANGED <<run, subj, st, viol>>
+       [] e.ev = "FVerify" ->
+            /\ lastv' = IF e.out = "accepted" /\ e.same /\ ForgeAdmissible THEN "accepted" ELSE "refused"
+            /\ viol' = viol \cup FVerifyViol(e)
+            /\ UNCHANGED <<run, doc, subj, st, forge>>
        [] e.ev = "Validate" ->
             /\ st' = IF e.ok THEN "ok" ELSE "failed"
             /\ viol' = viol \cup ValidateViol(e)
-            /\ UNCHANGED <<run, doc, subj, lastv>>
+            /\ UNCHANGED <<run, doc, subj, lastv, forge>>
   /\ (viol' # viol /\ viol' # {}) =>
         PrintT("VIOL line=" \o ToString(l) \o " run=" \o ToString(run') \o " clauses=" \o ToString(viol' \ viol))
 
